@@ -55,7 +55,14 @@ Definition burst (n : nat) : list event := flat_map (fun g => [Sort g; Pick g]) 
 
 (** the controller answers the held request of goroutine g and waits for what
     that goroutine does next *)
+Definition waiting_forever (c : config) (ts : list task) (G : gstate) : bool :=
+  match g_pc G with
+  | PReq t => is_stall (c_beh c (task_peer ts t) (g_h G))
+  | _ => false
+  end.
+
 Definition after_reply (c : config) (ts : list task) (s : state) (g : nat) : option state :=
+  if waiting_forever c ts (nth g (s_gs s) dummy_g) then Some s (* nothing is sent; the goroutine stays blocked *) else
   bind (step c ts s (Result g)) (fun s1 =>
   bind (step c ts s1 (Release g)) (fun s2 =>
   match g_pc (nth g (s_gs s2) dummy_g) with
@@ -130,36 +137,65 @@ Fixpoint nodupZ (l : list Z) : bool :=
 Definition permZ (a b : list Z) : bool :=
   nodupZ a && (length a =? length b)%nat && forallb (fun x => memZ x b) a.
 
-(** the model's trace for this case: (log, everything consistent) *)
-Definition model_trace (c : config) (replies : list Z) (trace : list obs) : option (list obs) :=
+(** phase two in the observed order; a re-download that waits for a silent peer
+    never returns, so nothing follows it.  Result: (log, returned) *)
+Fixpoint phase_two (c : config) (order : list Z) : option (list obs * bool) :=
+  match order with
+  | [] => Some ([], true)
+  | h :: tl =>
+      if all_done (recheck c h) then
+        bind (phase_two c tl) (fun r => Some (recheck_log c h ++ fst r, snd r))
+      else match tl with [] => Some (recheck_log c h, false) | _ => None end
+  end.
+
+Definition subsetZ (a b : list Z) : bool := nodupZ a && forallb (fun x => memZ x b) a.
+
+(** the model's trace for this case: (log, handler returned) *)
+Definition model_trace (c : config) (replies : list Z) (trace : list obs) : option (list obs * bool) :=
   let ts := init_job c in
   let n := length (heights c) in
   bind (exec_strict c ts (init_state ts (heights c)) (burst n)) (fun s0 =>
   bind (replay c ts s0 replies) (fun s1 =>
   let s2 := finish_sleepers c ts s1 in
-  if negb (all_done s2) then None
+  if negb (all_done s2) then
+    (* only goroutines that wait for a silent peer may be left *)
+    if forallb (fun G => is_done G || waiting_forever c ts G) (s_gs s2)
+    then Some (rev (s_log s2), false) else None
   else
     let failed := failed_heights s2 in
     let order := derive_order failed trace (match ts with [] => true | _ => false end) in
-    if negb (permZ order failed) then None
-    else Some (rev (s_log s2) ++ phase_two_log c order))).
+    if negb (subsetZ order failed) then None
+    else bind (phase_two c order) (fun r =>
+         if snd r && negb (permZ order failed) then None
+         else Some (rev (s_log s2) ++ fst r, snd r)))).
+
+Definition asked_silent (c : config) (tr : list obs) : bool :=
+  existsb (fun o => match o with OReq h p => is_stall (c_beh c p h) | _ => false end) tr.
 
 Definition check_case (cs : case) : verdict :=
   match cs with
   | Case pids conn lat adv beh st en ak replies trace finished odd =>
       let c := cfg_of pids conn lat adv beh st en in
-      let wf := (length (heights c) <=? 20)%nat in
+      (* at most 20 heights (the burst stays below the per-peer limit); a wrong-height answer really has another height *)
+      let wf := (length (heights c) <=? 20)%nat
+                && forallb (fun p => forallb (fun h => match c_beh c p h with RWrong b => negb (b =? h) | _ => true end)
+                                             (heights c)) (job_peers c) in
       if negb wf then (false, false, 0%N) else
       let ack_ok := match ak with Some a => ack_eqb a (handler_ack c) | None => false end in
       let m_trace :=
         match handler_ack c with
         | AckOk => model_trace c replies trace
-        | _ => match replies with [] => Some [] | _ => None end
+        | _ => match replies with [] => Some ([], true) | _ => None end
         end in
-      let m := ack_ok && finished && negb odd
-               && match m_trace with Some l => list_eqb obs_eqb l trace | None => false end in
+      let m := ack_ok && negb odd
+               && match m_trace with
+                  | Some (l, fin) => list_eqb obs_eqb l trace && Bool.eqb fin finished
+                  | None => false
+                  end in
       let s := finished && spec_all c trace in
-      (m, s, if s then 0%N else if finished then first_divergence c trace else 8%N)
+      (m, s, if s then 0%N
+             else if finished then first_divergence c trace
+             else if asked_silent c trace then 4%N else 8%N)
   end.
 
 (** compact constructors for the wire format *)
